@@ -736,11 +736,13 @@ class EvalFunc:
         for i, func_def_arg in enumerate(self.func_def.args.posonlyargs + self.func_def.args.args):
             var_name = func_def_arg.arg
             val = None
+            # a keyword named like a positional-only parameter belongs to **kwargs when the function has one
+            accepts_kw = i >= self.num_posonly_arg or not self.func_def.args.kwarg
             if i < len(args):
                 val = args[i]
-                if var_name in kwargs:
+                if var_name in kwargs and accepts_kw:
                     raise TypeError(f"{self.name}() got multiple values for argument '{var_name}'")
-            elif var_name in kwargs:
+            elif var_name in kwargs and accepts_kw:
                 if i < self.num_posonly_arg:
                     bad_kwargs.append(var_name)
                 val = kwargs[var_name]
